@@ -145,34 +145,28 @@ def uniqEqual (X : SchemaX) (lst : Nat) (u : List Nat) (a b : DNode) : Bool :=
     | some x, some y => x == y
     | _, _ => false
 
-/-- one hash table of `lyd_validate_unique`: the records in insertion order with their hash -/
-abbrev UTable := List (Nat × (DNode × Nat))
-
-/-- `lyht_insert` with the `lyd_val_uniq_list_equal` callback: the first record with the same hash that is equal -/
-def utFind (X : SchemaX) (lst : Nat) (u : List Nat) (tbl : UTable) (h : Nat) (inst : DNode) : Option (DNode × Nat) :=
-  (tbl.find? fun r => r.1 == h && uniqEqual X lst u inst r.2.1).map (·.2)
+/-- `lyht_insert(uniqtables[u], &inst, hash, NULL)` with the `lyd_val_uniq_list_equal` callback.  The table of unique statement
+`u` holds, in insertion order, the instances seen so far whose tuple for `u` is complete (the others were skipped), each under
+the hash of its tuple; the insert fails on the first record with the same hash that the callback calls equal. -/
+def utFind (X : SchemaX) (lst : Nat) (hash : List Bytes → Nat) (u : List Nat) (seen : List (DNode × Nat)) (inst : DNode × Nat) :
+    Option (DNode × Nat) :=
+  match uniqTuple X lst u inst.1 with
+  | none => none          -- skip this list instance since its unique set is incomplete
+  | some vals =>
+    seen.find? fun r =>
+      match uniqTuple X lst u r.1 with
+      | some rv => hash rv == hash vals && uniqEqual X lst u inst.1 r.1
+      | none => false
 
 /-- the hash-table path (more than two instances): instances in order, per instance every unique statement in order;
 result = the instance found equal (the EARLIER one, `second` of the callback) -/
 def uniqueHash (X : SchemaX) (lst : Nat) (hash : List Bytes → Nat) (uniques : List (List Nat)) :
-    List (DNode × Nat) → (tables : List UTable) → Option (DNode × Nat)
-  | [], _ => none
-  | inst :: rest, tables =>
-    -- one pass over the unique statements for this instance
-    let rec perU : List (List Nat) → List UTable → List UTable → Option (DNode × Nat) × List UTable
-      | [], _, acc => (none, acc.reverse)
-      | u :: us, tbls, acc =>
-        let tbl := tbls.head?.getD []
-        match uniqTuple X lst u inst.1 with
-        | none => perU us tbls.tail (tbl :: acc)          -- skip this list instance since its unique set is incomplete
-        | some vals =>
-          let h := hash vals
-          match utFind X lst u tbl h inst.1 with
-          | some hit => (some hit, (tbl :: acc).reverse)
-          | none => perU us tbls.tail ((tbl ++ [(h, inst)]) :: acc)
-    match perU uniques tables [] with
-    | (some hit, _) => some hit
-    | (none, tables') => uniqueHash X lst hash uniques rest tables'
+    (seen rest : List (DNode × Nat)) → Option (DNode × Nat)
+  | _, [] => none
+  | seen, inst :: rest =>
+    match uniques.findSome? (fun u => utFind X lst hash u seen inst) with
+    | some hit => some hit
+    | none => uniqueHash X lst hash uniques (seen ++ [inst]) rest
 
 /-- `lyd_validate_unique`: nothing for fewer than two instances, the direct comparison for exactly two (reported on the
 second), the hash tables otherwise (reported on the earlier instance) -/
@@ -180,7 +174,7 @@ def uniqueCheck (X : SchemaX) (lst : Nat) (hash : List Bytes → Nat) (uniques :
     Option (DNode × Nat) :=
   match insts with
   | [a, b] => if uniques.any (fun u => uniqEqual X lst u a.1 b.1) then some b else none
-  | _ :: _ :: _ :: _ => uniqueHash X lst hash uniques insts (uniques.map fun _ => [])
+  | _ :: _ :: _ :: _ => uniqueHash X lst hash uniques [] insts
   | _ => none
 
 def uniqueOut (X : SchemaX) (o : VOpts) (cx : Cx) (sibs : List DNode) (k : STree) : Out :=
